@@ -901,6 +901,71 @@ example :
     wfAll 2 (h.map (Op.project 1)) = true ∧ incPre Ghost.init (h.map (Op.project 1)) = true := by
   decide
 
+/-! ### a synced row is a probability distribution -/
+
+/-- Σ_{i<w} f i -/
+def sumUpTo (f : Nat → Rat) : Nat → Rat
+  | 0 => 0
+  | w+1 => sumUpTo f w + f w
+
+theorem sumUpTo_indicator (a w : Nat) : sumUpTo (fun i => if a = i then (1 : Rat) else 0) w = if a < w then 1 else 0 := by
+  induction w with
+  | zero => simp [sumUpTo]
+  | succ w ih =>
+    simp only [sumUpTo, ih]
+    by_cases h1 : a < w
+    · have : a ≠ w := by omega
+      have h2 : a < w + 1 := by omega
+      simp [h1, this, h2]
+    · by_cases h2 : a = w
+      · subst h2; simp
+      · have : ¬ a < w + 1 := by omega
+        simp [h1, h2, this]
+
+theorem sumUpTo_add (f g : Nat → Rat) (w : Nat) : sumUpTo (fun i => f i + g i) w = sumUpTo f w + sumUpTo g w := by
+  induction w with
+  | zero => simp [sumUpTo]
+  | succ w ih => simp only [sumUpTo, ih]; ring
+
+theorem sumUpTo_div (f : Nat → Rat) (c : Rat) (w : Nat) : sumUpTo (fun i => f i / c) w = sumUpTo f w / c := by
+  induction w with
+  | zero => simp [sumUpTo]
+  | succ w ih => simp only [sumUpTo, ih]; ring
+
+theorem sumUpTo_congr (f g : Nat → Rat) (w : Nat) (h : ∀ i, i < w → f i = g i) : sumUpTo f w = sumUpTo g w := by
+  induction w with
+  | zero => rfl
+  | succ w ih => simp only [sumUpTo]; rw [ih (fun i hi => h i (by omega)), h w (by omega)]
+
+theorem sum_countS1 (w : Nat) (recs : List (Nat × Rat)) (hwf : ∀ x ∈ recs, x.1 < w) :
+    sumUpTo (fun i => (countS1 i recs : Rat)) w = recs.length := by
+  induction recs with
+  | nil => 
+    simp only [countS1, Nat.cast_zero, List.length_nil]
+    induction w with
+    | zero => rfl
+    | succ w ih => simp [sumUpTo, ih]
+  | cons x t ih =>
+    obtain ⟨a, r⟩ := x
+    have ha : a < w := hwf (a, r) (by simp)
+    have : (fun i => ((countS1 i ((a, r) :: t) : Nat) : Rat)) = fun i => (if a = i then (1 : Rat) else 0) + (countS1 i t : Rat) := by
+      funext i; by_cases d : a = i <;> simp [countS1, d]
+    rw [this, sumUpTo_add, sumUpTo_indicator, ih (fun y hy => hwf y (by simp [hy]))]
+    simp [ha]; ring
+
+/-- **synced_row_is_distribution**: the empirical-frequency row is non-negative and sums to 1
+    (records with next states inside the row) — so every synced row the theorems above describe is a
+    valid distribution, as is the default unit row. -/
+theorem freq_row_is_distribution (w : Nat) (recs : List (Nat × Rat)) (hne : recs ≠ []) (hwf : ∀ x ∈ recs, x.1 < w) :
+    (∀ i, 0 ≤ freqOf recs i) ∧ sumUpTo (freqOf recs) w = 1 := by
+  have hl : (recs.length : Rat) ≠ 0 := by
+    have : recs.length ≠ 0 := by simpa using hne
+    exact_mod_cast this
+  constructor
+  · intro i; unfold freqOf; positivity
+  · have : freqOf recs = fun i => (countS1 i recs : Rat) / (recs.length : Rat) := rfl
+    rw [this, sumUpTo_div, sum_countS1 w recs hwf, div_self hl]
+
 /-! ## §8 Thompson models -/
 
 theorem sumQ_map_div (g : List Rat) (c : Rat) : sumQ (g.map (fun x => x / c)) = sumQ g / c := by
